@@ -71,6 +71,13 @@ def gen_los(rng):
         dirv = -p * math.sqrt(max(0.0, 1 - sin_t**2)) + u * sin_t
         r2 = a + dirv * d * rng.uniform(1.2, 3.0)
         r2 = [round(float(x) * 64) / 64 for x in r2]
+    # both ends lie at or above the surface (the property is about positions "from the surface to 10 Earth radii"; for a point inside the
+    # sphere the question "is the line of sight obstructed" has no answer the code is held to): push an end that fell inside back onto it
+    for v in (r1, r2):
+        n = math.sqrt(sum(x * x for x in v))
+        if 0 < n < R:
+            k = (R / n) * (1 + 2**-40)
+            v[:] = [x * k for x in v]
     return {"op": "los", "r1": r1, "r2": r2, "kind": kind}
 
 
